@@ -115,6 +115,13 @@ class Gen:
     def cond(self, depth=1):
         r = self.rnd
         k = r.random()
+        if r.random() < 0.22:
+            # a bare calldata word compared with a small constant: halmos records `cd == c` as a substitution
+            # for later CALLDATALOADs of the path (Concretization), which must stay local to that path
+            c = ("c", r.choice([0, 1, 5, 7, 255]))
+            self.consts.add(c[1])
+            i = ("in", r.randrange(self.nin))
+            return ("EQ", i, c) if r.random() < 0.5 else ("EQ", c, i)
         a = self.expr(depth)
         if k < 0.7:
             return (r.choice(["LT", "GT", "SLT", "SGT", "EQ"]), a, self.const() if r.random() < 0.7 else self.expr(depth))
@@ -208,8 +215,11 @@ def fam_control(rnd: random.Random, ninputs: int = 12):
             elif k < 0.8:
                 out += _ifelse(g, g.cond(), block(depth - 1), block(depth - 1) if rnd.random() < 0.7 else [])
             elif k < 0.9:
-                # (a conditional jump to an invalid destination is a recorded finding: probe jumpi-invalid-dest)
-                out += _ifelse(g, g.cond(), terminal(), [])
+                if rnd.random() < 0.25:
+                    # a conditional jump straight to an invalid destination: only the jumping inputs halt
+                    out += compile_expr(g.cond()) + [("PUSH", rnd.choice([0xFFFF, 0xFFFFFF])), "JUMPI"]
+                else:
+                    out += _ifelse(g, g.cond(), terminal(), [])
             else:
                 # counted loop with a concrete trip count: mem[slot] += expr, n times
                 n = rnd.randint(1, 4)
